@@ -534,7 +534,10 @@ def gen_string(rng, brackets=False, prof="readable"):
         s = s.replace("\r", "\n")
         while "]" + b + "]" in s:
             s = s.replace("]" + b + "]", "]")
-        if prof == "readable" and s.endswith("]") and b == "":
+        # content whose end would merge with the closer (e.g. "x]" with delimiter "") is not
+        # expressible; the String constructor rejects it since fix 70922de
+        closer = "]" + b + "]"
+        while (s + closer).find(closer) != len(s):
             s += "."
     return {"t": "Str", "v": s, "b": b}
 
@@ -561,7 +564,7 @@ def gen_atom(rng, prof="readable"):
 
 def gen_spec(rng, depth, prof, nest):
     """Children 1.. of an FComponent: literal strings and nested fields."""
-    n = rng.choice([1, 1, 1, 1, 2, 3])
+    n = rng.choice([1, 1, 1, 1, 1, 1, 2, 3])
     out = []
     for _ in range(n):
         if (not out or out[-1]["t"] != "Str") and rng.random() < 0.55:
@@ -651,7 +654,7 @@ def gen_sugar(rng, depth, prof):
 
 def gen_dotted(rng, prof):
     r = rng.random()
-    parts = [gen_sym(rng, "plain") if rng.random() < 0.8 else sym(rng.choice([".", "..", "...", "None"]))
+    parts = [gen_sym(rng, "plain") if rng.random() < 0.9 else sym(rng.choice([".", "..", "...", "None"]))
              for _ in range(rng.randint(1, 4))]
     if r < 0.45:
         if len(parts) < 2:
@@ -714,18 +717,13 @@ def hostile_any(rng):
 
 # ---------------------------------------------------------------------- corpus
 
-_corpus_cache = {}
-
-
-def corpus_irs(repo=None, max_size=150):
-    """[(label, ir)] for every top-level form and every distinct compound
-    sub-form of the *.hy files of the tree under test."""
+def corpus_iter(shard=0, nshards=1, repo=None, max_size=150):
+    """Lazily yield (label, ir) for every top-level form and every distinct compound
+    sub-form of the *.hy files of the tree under test (one file is read at a time, so
+    a worker does not stall at start-up); items are dealt round-robin to shards."""
     repo = os.path.abspath(repo or os.environ.get("VERIF_REPO", "/repo"))
-    if repo in _corpus_cache:
-        return _corpus_cache[repo]
-    import hy
     from hy.reader import read_many
-    out, seen = [], set()
+    seen, n_item = set(), 0
     files = sorted(glob.glob(os.path.join(repo, "**", "*.hy"), recursive=True))
     for path in files:
         rel = os.path.relpath(path, repo)
@@ -756,9 +754,14 @@ def corpus_irs(repo=None, max_size=150):
                 if key in seen:
                     continue
                 seen.add(key)
-                out.append((f"{rel}#{n}", sub))
-    _corpus_cache[repo] = out
-    return out
+                n_item += 1
+                if n_item % nshards == shard:
+                    yield f"{rel}#{n}", sub
+
+
+def corpus_irs(repo=None, max_size=150):
+    """The whole corpus as a list (see corpus_iter)."""
+    return list(corpus_iter(0, 1, repo, max_size))
 
 
 def known_keys(pid):
